@@ -1,6 +1,7 @@
 import UgoVerif.VM.Run
 import Std.Do
 import Std.Tactic.Do
+import Lean.Elab.Tactic
 /-
   C06 helper layer 1: the recovery-path invariant `VInv`, the instruction-boundary
   invariant `VInvB`, the "control part unchanged" relation `Same`, array/frame lemmas,
@@ -11,6 +12,28 @@ set_option linter.unusedSimpArgs false
 set_option linter.unusedVariables false
 namespace UgoVerif.Proofs.VM
 open UgoVerif UgoVerif.Go UgoVerif.VM Std.Do
+
+/-- `split_ands`: destructs every hypothesis that is a conjunction (so that `simp_all` can use
+    one conjunct to rewrite another) -/
+def splitAndsLoop : Nat → Lean.Elab.Tactic.TacticM Unit
+  | 0 => pure ()
+  | n + 1 => do
+    let g ← Lean.Elab.Tactic.getMainGoal
+    let found ← g.withContext do
+      let mut r : Option Lean.FVarId := none
+      for ld in ← Lean.getLCtx do
+        if ld.isImplementationDetail then continue
+        let ty ← Lean.instantiateMVars ld.type
+        if r.isNone && ty.isAppOfArity ``And 2 then r := some ld.fvarId
+      pure r
+    match found with
+    | none => pure ()
+    | some fv =>
+      let gs ← g.cases fv
+      Lean.Elab.Tactic.replaceMainGoal (gs.toList.map (·.mvarId))
+      splitAndsLoop n
+
+elab "split_ands" : tactic => splitAndsLoop 400
 
 abbrev PS : PostShape := .except Exc (.arg State .pure)
 
